@@ -7,6 +7,6 @@ for f in sorted(glob.glob('/verif/replays/%s/*.json'%prop)):
     ids=set(x for e in c.get('edges') or [] for x in e)
     o=c['opts']
     print('==',f.split('/')[-1], d['signature'], '| idx',c['index'],c['family'],'n=%d m=%d'%(len(ids),len(c.get('edges') or [])), 'cell=%d/%d/%d/%d'%(o['breaker'],o['layerer'],o['positioner'],o['router']))
-    if len(c.get('edges') or [])<=14: print('   edges',json.dumps(c['edges']))
+    if 0<len(c.get('edges') or [])<=14: print('   edges',json.dumps(c['edges']))
     print('   opts',json.dumps({k:v for k,v in o.items() if k not in('breaker','layerer','positioner','router','greedy_seed','explicit')}))
     print('   ',d['detail'][:n].replace('\n','\n    '))
